@@ -184,6 +184,22 @@ class Bits:
                         return Bits(list(x.b[:k]) + [nb] * (N - k))
         return None
 
+    def sub(self, o):
+        """self - o, exact cases only (None otherwise)"""
+        if o.is_const():
+            return self.add(Bits.const(-o.value()))
+        # (x & (S-1)) - (x & S), S = 2**k: o has one (literal) bit at position k, self is zero from k upwards.
+        # -(b << k) is b replicated from bit k upwards in two's complement, and adding self (below k) produces no carry.
+        nz = [i for i, x in enumerate(o.b) if x != 0]
+        if len(nz) == 1 and o.b[nz[0]] != TOP:
+            k = nz[0]
+            if all(x == 0 for x in self.b[k:]):
+                return Bits(list(self.b[:k]) + [o.b[k]] * (N - k))
+        # x - (x & m) == x & ~m when both are the same literals on m
+        if all(y == 0 or y == x for x, y in zip(self.b, o.b)) and not o.has_top():
+            return Bits([0 if y != 0 else x for x, y in zip(self.b, o.b)])
+        return None
+
     def neg(self):
         if self.is_const():
             return Bits.const(-self.value())
